@@ -10,7 +10,7 @@ let name_of_string (s : string) : z list =
   if s = "-" then [] else List.init (String.length s) (fun i -> z_of_int (Char.code (if s.[i] = '~' then ' ' else s.[i])))
 let string_of_name (n : z list) : string =
   String.concat "" (List.map (fun b -> String.make 1 (Char.chr (int_of_z b))) n)
-let keys = ["mz"; "st"; "ga"; "gA"; "gr"; "iv"; "ch"; "sp"; "ip"; "spn"; "ipn"; "rn"; "vn"; "cr"; "cv"; "sz"; "fm"; "mg"; "mga"; "g0"; "sp0"; "ip0"; "sa"; "ia"; "ev"]
+let keys = ["mz"; "st"; "ga"; "gA"; "gr"; "iv"; "ch"; "sp"; "ip"; "spn"; "ipn"; "rn"; "vn"; "cr"; "cv"; "sz"; "fm"; "mg"; "mga"; "g0"; "sp0"; "ip0"; "sa"; "ia"; "ev"; "mf"]
 let show_cell (c : cell) : string =
   match c with
   | CName n -> string_of_name n
